@@ -64,6 +64,7 @@ class RefFit(object):
         self.n_par = 0
         self.add_det = True  # option add_determinant_cost of the chi2 / Gaussian-approximation cost functions
         self.cost_object = False  # cost function handed over as an object (no implicit chi2_no_errors fallback)
+        self.implicit_gone = False  # a source was declared at some time: the stand-in cost for "no uncertainties at all" is not re-instated when they vanish
 
     # -- uncertainty model
     def cov_axis(self, axis, p):
@@ -146,7 +147,7 @@ class RefFit(object):
 
     def effective_cost_id(self):
         cid = self.cost_id
-        if cid == "chi2" and not self.has_sources() and not self.cost_object:
+        if cid == "chi2" and not self.has_sources() and not self.cost_object and not self.implicit_gone:
             return "chi2_no_errors"  # no source declared: documented fallback of the default cost function
         return cid
 
